@@ -33,7 +33,7 @@ func BuildTools(scratch string) (binDir string, err error) {
 		return "", err
 	}
 	for _, tool := range []string{"wuffs", "wuffs-c", "wuffsfmt"} {
-		if err := run("/verif", nil, "go", "build", "-o", filepath.Join(binDir, tool), "github.com/google/wuffs/cmd/"+tool); err != nil {
+		if err := run(ev.Root, nil, "go", "build", "-o", filepath.Join(binDir, tool), "github.com/google/wuffs/cmd/"+tool); err != nil {
 			return "", err
 		}
 	}
